@@ -4,6 +4,7 @@ package main
 
 import (
 	"bytes"
+	"encoding/asn1"
 	"crypto/elliptic"
 	"fmt"
 	"go/types"
@@ -63,7 +64,7 @@ func init() {
 		"fmt.Errorf", "fmt.Sprint", "fmt.Sprintf", "strconv.FormatInt", "strconv.Itoa",
 		"errors.Is", "errors.Unwrap",
 		"bytes.HasPrefix", "bytes.Equal", "strings.Count",
-		"reflect.TypeOf", "reflect.ValueOf", "(reflect.Value).Kind", "(reflect.Value).CanInt", "(reflect.Value).CanUint",
+		"reflect.DeepEqual", "reflect.TypeOf", "reflect.ValueOf", "(reflect.Value).Kind", "(reflect.Value).CanInt", "(reflect.Value).CanUint",
 		"(reflect.Value).Int", "(reflect.Value).Uint", "(reflect.Value).String", "(reflect.Value).Bool", "(reflect.Value).Bytes",
 		"maps.Clone",
 		"crypto/elliptic.P256", "crypto/elliptic.P384", "crypto/elliptic.P521", "crypto/elliptic.P224",
@@ -559,6 +560,8 @@ func (e *Engine) callStub(name string, recv Value, args []Value) Value {
 	// ---- reflect ----------------------------------------------------------------------
 	case "reflect.ValueOf":
 		return OpaqueV{kind: "reflect", data: args[0].(Iface)}
+	case "reflect.DeepEqual":
+		return e.deepEqual(args[0], args[1], 0)
 	case "reflect.TypeOf":
 		ifc := args[0].(Iface)
 		if ifc.typ == nil {
@@ -933,6 +936,7 @@ func (e *Engine) callStub(name string, recv Value, args []Value) Value {
 			e.addPC(okv)
 		}
 		if !e.branch(okv) {
+			e.envFailures++
 			return TupleV{e.zero(types.NewSlice(types.Typ[types.Uint8])), e.mkErr("rsa: signing failed (injected)")}
 		}
 		var hashT, salt *Term
@@ -1031,6 +1035,22 @@ func (e *Engine) callStub(name string, recv Value, args []Value) Value {
 					return TupleV{e.bytesFromRope(nil), Iface{}}
 				}
 			}
+		}
+		if cb, ok := ropeConcrete(r); ok {
+			// concrete input: ask the real decoder
+			var sig struct{ R, S *big.Int }
+			rest, err := asn1.Unmarshal(cb, &sig)
+			if err != nil {
+				return TupleV{e.bytesFromRope(nil), e.mkErr("asn1: " + err.Error())}
+			}
+			mk := func(x *big.Int) PtrV {
+				return e.newBig(tt.BV(new(big.Int).Abs(x), 528), tt.Bool(x.Sign() < 0))
+			}
+			if sig.R.BitLen() > 528 || sig.S.BitLen() > 528 {
+				e.unsupported("asn1 integer wider than 528 bits")
+			}
+			e.store(dst, &StructV{fields: []Value{mk(sig.R), mk(sig.S)}})
+			return TupleV{e.bytesFromRope(ropeLit(rest)), Iface{}}
 		}
 		// arbitrary bytes: may fail or yield arbitrary integers
 		if !e.branch(e.envBool("asn1.ok")) {
@@ -1232,6 +1252,7 @@ func (e *Engine) ecdsaSign(priv PtrV, digest BytesV) (PtrV, PtrV, Iface) {
 		e.goPanic("ecdsa.Sign with nil curve")
 	}
 	if !e.branch(e.envBool("ecdsa.Sign.ok")) {
+		e.envFailures++
 		return PtrV{}, PtrV{}, e.mkErr("ecdsa: signing failed (entropy source error, injected)")
 	}
 	return e.ecdsaSignOK(priv, digest)
